@@ -1726,8 +1726,10 @@ def run_family(ex: Explorer, name: str, nmax: int, chars_max: int, cap: float) -
     if verdict is None:
         return
     (nj, cj, tj), (nl, cl, tl) = verdict
-    # re-measure twice; keep the most favourable numbers for the code
-    for _ in range(2):
+    # re-measure four times (spaced out: a loaded machine inflates single CPU-time samples); keep the most
+    # favourable numbers for the code -- a genuinely super-linear family is confirmed every time
+    for _k in range(4):
+        time.sleep(0.3 * _k)
         a = ex.sb.call({**ex.job("module", True, gen(nj)), "cpu": 30.0})
         b = ex.sb.call({**ex.job("module", True, gen(nl)), "cpu": 60.0})
         if a["out"] not in ("ok", "diag") or b["out"] not in ("ok", "diag", "budget"):
